@@ -35,7 +35,7 @@ AllowLists ==
 MJReq(o, u, vs)  == [k |-> "mjreq", origin |-> o, usrv |-> u, vers |-> vs, room |-> "main"]
 MLReq(o, u)      == [k |-> "mlreq", origin |-> o, usrv |-> u, room |-> "main"]
 Ev(t, m, ss, sk, rm, via, sig) ==
-    [type |-> t, mship |-> m, ssrv |-> ss, skey |-> sk, room |-> rm, via |-> via, sig |-> sig, auth |-> "good"]
+    [type |-> t, mship |-> m, ssrv |-> ss, skey |-> sk, room |-> rm, via |-> via, sig |-> sig, auth |-> AuthOf(via)]
 
 \* ---- make_join: every request parameter x membership x join rule x template builder --------
 InitMJBasic ==
